@@ -48,10 +48,12 @@ Theorem C11_ctx_error_through_wrappers : forall ws t e,
 Proof. exact chain_through_wrappers. Qed.
 
 (* "also with several calls blocked at once": for ANY list of calls parked in a select (no bound on their
-   number, any program), after one connection end and any schedule run until nothing moves, every one has
-   returned the error of its connClosed arm, Done() is closed and the reader goroutine is gone *)
+   number, any program), ANY number of stray acknowledgements (late, duplicated, unsolicited: for identifiers
+   none of them waits for) still on their way, after one connection end and any schedule run until nothing
+   moves, every one has returned the error of its connClosed arm, Done() is closed and the reader goroutine
+   is gone *)
 Theorem C11_all_wake : forall (cs : list cst) (s : sys) (sched : list label),
-  Forall parked cs -> calls s = cs -> no_acks (inbox s) ->
+  Forall parked cs -> calls s = cs -> stray_only cs (inbox s) ->
   rd s <> RNotStarted -> (rd s = RFinished -> cclosed s = true) -> ended s ->
   Quiescent (run sched s) ->
   Forall2 (fun c0 c => c = finish c0 (closed_err c0)) cs (calls (run sched s)) /\
@@ -80,6 +82,31 @@ Proof.
   intros s sched H Hc. apply exit_goroutine_runs_to_end; [|rewrite H; exact Hc].
   unfold exit_inv. rewrite H. repeat split; try reflexivity; try discriminate. intros E; contradiction E; reflexivity.
 Qed.
+
+(* the reader goroutine never waits for anybody when it hands an acknowledgement over (serve.go: every
+   hand-off is "select { case ch <- ack: default: }"): whatever the next queued packet is — an acknowledgement
+   whose waiter's one-slot buffer is already full, one for a call that has returned, one for an identifier
+   nobody knows — it is consumed *)
+Theorem C11_reader_never_blocks_on_handoff : forall s p q,
+  rd s = RServing -> inbox s = p :: q -> rstep s <> None.
+Proof. exact reader_never_blocks_on_handoff. Qed.
+
+(* hence "serve returns on every connection end" also after arbitrary stray acknowledgements: once the
+   connection has ended (transport closed, peer closed, malformed packet queued), whatever is still queued and
+   whatever the other goroutines do in between, [rleft s] (= queued packets up to the first malformed one
+   + 1 + 4) own steps of the reader suffice: transport closed, Done() closed, goroutine gone *)
+Theorem C11_serve_returns_after_stray_acks : forall sched s,
+  ended s -> rd s <> RNotStarted -> (rd s <> RServing -> exit_inv s) ->
+  rleft s <= count_reader sched ->
+  rd (run sched s) = RFinished /\ cclosed (run sched s) = true /\ tclosed (run sched s) = true.
+Proof. exact reader_wait_free. Qed.
+
+(* the matrix once more, with 2k stray acknowledgements (k duplicates for a request answered earlier — also a
+   late or repeated PINGRESP —, k for identifiers never used; k = 1..4) sent before the cause, and also with
+   no call blocked at all: same verdict in every cell, under all schedules *)
+Theorem C11_returns_after_stray_acks : forall k c p z, In k [1; 2; 3; 4]%nat -> In (c, p, z) matrix ->
+  stray_cell_ok k (c, p, z) = true.
+Proof. exact matrix_returns_after_stray_acks. Qed.
 
 (* finding F14 (known, not repaired): the statement is FALSE at the connect lock — a call waiting for
    muConnecting while a Connect waiting for CONNACK holds it stays blocked, its own context done,
@@ -118,6 +145,9 @@ Print Assumptions C11_all_wake.
 Print Assumptions C11_all_wake_error.
 Print Assumptions C11_conn_end_all_return.
 Print Assumptions C11_done_and_reader_exit.
+Print Assumptions C11_reader_never_blocks_on_handoff.
+Print Assumptions C11_serve_returns_after_stray_acks.
+Print Assumptions C11_returns_after_stray_acks.
 Print Assumptions C11_connect_lock_blocks.
 Print Assumptions C11_connect_lock_refuted.
 Print Assumptions C11_reconnect_returns.
